@@ -14,7 +14,7 @@ FAMILY = {"F": "F", "F+": "multi-start", "K": "skeleton",
           "FB": "bunched-fork", "FS": "staged-merge", "FL": "lead-loop",
           "FK": "loop-on-break-path", "FD": "kill-in-loop",
           "FX": "stretched", "FE": "silent-break",
-          "FT": "sibling-breaks"}
+          "FT": "sibling-breaks", "FW": "wide-fork"}
 
 
 def handle(task):
